@@ -79,7 +79,8 @@ func init() {
 			}
 			out = append(out, strings.Join(f, " "))
 		})
-		return strings.Join(out, ";")
+		// the number of visits is part of the result: one visit of the empty pattern (k = 0) is not "no visit"
+		return fmt.Sprintf("%d|%s", len(out), strings.Join(out, ";"))
 	})
 
 	register("sets", func(n int) {
